@@ -48,7 +48,16 @@ func VerifC04Hash() {
 	}
 	verifapi.Assert(Verify(sig, method, id, nonce, arg, extra) == nil, "c04.hash.own-signature-verifies")
 	// each single alteration is refused
-	switch verifapi.Choose("alteration", 9) {
+	switch verifapi.Choose("alteration", 10) {
+	case 9: // an identity that names nobody - empty, or only the tail of an address, with or without 0x -
+		// signed by some key: no key is "the key of the identity it names"
+		signer := verifapi.Wallet(1)
+		tail := signer[len(signer)-6:]
+		short := []string{"", tail, "0x" + tail, signer[2:]}[verifapi.Choose("short-identity", 4)]
+		sig3, serr := Sign(verifKey(signer), method, short, nonce, arg, extra)
+		if serr == nil {
+			verifapi.Assert(Verify(sig3, method, short, nonce, arg, extra) != nil, "c04.hash.incomplete-identity-names-nobody")
+		}
 	case 8: // not a signature at all: empty, too short, right length, too long, not hex / not base64
 		forged := []string{
 			"", "0x", "00", "zz", "AA==",
